@@ -1038,18 +1038,43 @@ def check_interpolation_zeroed(ck, facts):
     rule = "E7.interpolation-output-zeroed"
     import norm_c16 as norm
     by_decl = {g.d.get("decl"): g for g in facts.functions if g.tk != "pattern" and g.body is not None and g.d.get("decl") is not None}
-    # does the core accumulate?
+    # does the core accumulate?  stores into vector.elements()[...], directly in InterpolatorCore::project or in a helper of the
+    # core that receives the data array as a pointer parameter
     accumulates = None
-    for g in facts.functions:
-        if g.tk != "pattern" and g.name == "project" and "InterpolatorCore<" in (g.cls or ""):
-            env = norm.DefEnv(g)
+    core_fns = [g for g in facts.functions if g.tk != "pattern" and g.body is not None and "InterpolatorCore<" in (g.cls or "")]
+    envs = {id(g): norm.DefEnv(g) for g in core_fns}
+    data_params = {}     # decl of a core function -> indices of parameters bound to vector.elements() at some call
+
+    def is_data(g, x, depth=0):
+        """expression denotes the vector's data array: vector.elements(), a local / parameter bound to it"""
+        env = envs[id(g)]
+        x = env.alias(x)
+        if x is None or depth > 6:
+            return False
+        if x.get("k") == "MCall" and x.get("n") == "elements":
+            return True
+        if x.get("k") == "Ref":
+            if x.get("dk") == "local" and env.single_def(x.get("d")) is not None:
+                return is_data(g, env.single_def(x["d"]), depth + 1)
+            if x.get("dk") == "param":
+                idx = [i for i, pp in enumerate(g.params) if pp["d"] == x.get("d")]
+                return bool(idx) and idx[0] in data_params.get(g.d.get("decl"), set())
+        return False
+    for _ in range(3):
+        for g in core_fns:
             for n in g.nodes():
-                if n.get("k") in ("Assign", "OpCall") and n.get("op") in ("+=", "-=", "=") and (n.get("k") == "Assign" or len(n.get("a") or []) == 2):
-                    lhs = n.get("lhs") if n["k"] == "Assign" else n["a"][0]
-                    X = norm.elem_access(lhs, env)
-                    src = env.alias(X) if X is not None else None
-                    if src is not None and src.get("k") == "MCall" and src.get("n") == "elements":
-                        accumulates = (accumulates or False) or n.get("op") != "="
+                if n.get("k") in ("Call", "MCall") and n.get("cdecl") in by_decl and "InterpolatorCore<" in (by_decl[n["cdecl"]].cls or ""):
+                    for pos, a in enumerate(n.get("a") or []):
+                        if is_data(g, a):
+                            data_params.setdefault(n["cdecl"], set()).add(pos)
+    for g in core_fns:
+        env = envs[id(g)]
+        for n in g.nodes():
+            if n.get("k") in ("Assign", "OpCall") and n.get("op") in ("+=", "-=", "=") and (n.get("k") == "Assign" or len(n.get("a") or []) == 2):
+                lhs = n.get("lhs") if n["k"] == "Assign" else n["a"][0]
+                X = norm.elem_access(lhs, env)
+                if X is not None and is_data(g, X):
+                    accumulates = (accumulates or False) or n.get("op") != "="
     if accumulates is None:
         ck.incomplete(rule, "no store into vector.elements() found in InterpolatorCore::project (interpolation core changed)")
         return
